@@ -77,6 +77,7 @@ def main():
         setattr(np.random, fn, mk(orig, fn))
 
     persist = {}
+    internal = []           # inconsistencies found inside one run (e.g. the k-th repetition of a call differing from the first)
 
     def run_once():
         h = hashlib.sha256()
@@ -118,6 +119,44 @@ def main():
             x = sg.ones(6, 7, requires_grad=True)
             y = d(x); y.sum().backward()
             put(y.data); put(x.grad.data)
+        elif kind == "dropout-untracked":
+            # Monte-Carlo dropout / a validation pass without eval(): Dropout in training mode under no_grad draws from the seeded stream as well
+            d = nn.Dropout(spec.get("p", 0.4))
+            with sg.no_grad():
+                put(d(sg.ones(6, 7)).data)
+                put(d(sg.ones(3, 5, requires_grad=True)).data)
+            put(d(sg.ones(4, 4)).data)                       # constant input, tracking on
+            mseq = nn.Sequential(nn.Linear(5, 6), nn.Dropout(0.3), nn.Linear(6, 2))
+            with sg.no_grad():
+                put(mseq(sg.ones(4, 5)).data)
+            put(sg.rand(3).data)
+        elif kind == "repeat-backward":
+            # one graph, differentiated again and again (gradients reset in between) with the same upstream-gradient tensor: every call yields the
+            # same bits - results do not depend on how often the computation has been repeated
+            net = nn.Sequential(nn.Linear(5, 6), nn.Tanh(), nn.Linear(6, 4))
+            X = sg.randn(7, 5); X.requires_grad = True
+            tgt = sg.randint(0, 4, (7,))
+            soft = sg.rand(7, 4)
+            logits = net(X)
+            per_sample = nn.CrossEntropyLoss(reduction="none")(logits, tgt)                      # (7,)
+            root = per_sample + sg.log_softmax(logits, 1).sum(1) * 0.1 + nn.BCEWithLogitsLoss(reduction="none")(logits, soft).sum(1) * 0.1 \
+                + (sg.softmax(logits, 1) * soft).sum(1) + nn.MSELoss(reduction="none")(sg.sigmoid(logits), soft).sum(1)
+            g_t = sg.randn(7)
+            leaves = [X] + list(net.parameters())
+            per_call = []
+            for call_no in range(4):
+                for l_ in leaves:
+                    l_._grad = None
+                root.backward(g_t)
+                hh = hashlib.sha256()
+                for l_ in leaves:
+                    a_ = np.ascontiguousarray(l_.grad.data)
+                    hh.update(str(a_.dtype).encode()); hh.update(str(a_.shape).encode()); hh.update(a_.tobytes())
+                per_call.append(hh.hexdigest())
+            if len(set(per_call)) != 1:
+                internal.append(f"backward call number {[i + 1 for i, d_ in enumerate(per_call) if d_ != per_call[0]][0]} over the same graph (gradients reset in between, same "
+                                "upstream-gradient tensor) gave other leaf gradients than the first call")
+            put(np.frombuffer(bytes.fromhex(per_call[0]), dtype=np.uint8)); put(g_t.data); put(root.data)
         elif kind == "reseed-existing-model":
             # the model (with Dropout) exists before manual_seed is called: seeding must still pin its randomness
             if "model" not in persist:
@@ -261,7 +300,7 @@ def main():
     d1 = run_once()
     d2 = run_once()
     d3 = run_once() if spec.get("thrice") else d2
-    print(json.dumps({"d1": d1, "d2": d2, "d3": d3, "tap": tap}))
+    print(json.dumps({"d1": d1, "d2": d2, "d3": d3, "tap": tap, "internal": internal[:3]}))
 
 
 if __name__ == "__main__":
